@@ -1,7 +1,7 @@
 from .base import *
 
 ID = 'C02'
-THEOREMS = ['C02_fast_path', 'C02_dimension', 'C02_with_blade', 'C02_scalar', 'C02_decomp_exact', 'C02_new_is_from_total', 'C02_new_value', 'C02_fast_path_negative']
+THEOREMS = ['C02_fast_path', 'C02_dimension', 'C02_with_blade', 'C02_scalar', 'C02_decomp_exact', 'C02_new_is_from_total', 'C02_new_value', 'C02_fast_path_negative', 'C02_new_value_pd']
 OWNED = {'ANew', 'ANewBlade', 'ANewCart', 'GNew', 'GNewBlade', 'GNewCart', 'GDim', 'GScalar', 'GNewAngle'}
 RULE = ('Angle::new(p, d) on the exhaustive grid p in [-512,512] (quick) / [-4096,4096] (thorough) x d in {1,2,3,4,6,8,12,PI}, plus random classes: exact multiples of pi/2 written with any divisor, radians with divisor PI, '
         'half-integers, negatives, denormals, |2p/d| log-uniform to 2^40, remainders steered next to 0 / 1e-15 / 1e-10 / pi/2 at +-2 ulps; blade offsets {0..8,1000,10^6,2^31-1,2^31,2^32+2,2^40}; '
